@@ -397,6 +397,53 @@ def run(ctx, report):
             R3.nontrivial.add('%s:%s' % (rname, inst.form))
             if not bad and len(R3.samples) < 5:
                 R3.samples.append('%s %s: writes %s (defined %s, undefined %s)' % (name, inst.form, sorted(written), sorted(e['F']), sorted(e['U'])))
+    # ------------------------------------------------------------------ D7 multiply: CF/OF come from the product
+    R7 = report.rule('C04.D7', 'mul/imul: CF and OF are computed from the double-width product (high half; for the signed forms high half and sign of the low half)', floor=8)
+    for inst in L.lift_all():
+        if inst.func is None or inst.unknown or inst.name not in ('mul', 'imul'):
+            continue
+        for dec, tmpl in inst.results:
+            if isinstance(tmpl, LiftError) or not isinstance(tmpl, list):
+                continue
+            for flag in ('cf', 'of'):
+                srcs = [a.src for a in tmpl if a.kind == 'Aff' and a.dst.kind == 'Id' and a.dst.name == flag]
+                if not srcs:
+                    continue        # D3 reports a missing flag
+                cond = srcs[0].cond if srcs[0].kind == 'Cond' else srcs[0]
+                ops_ = [t for t in walk_terms(cond) if t.kind == 'Op']
+                prods = [t for t in ops_ if t.op == '*' or 'mul' in t.op]
+                iid = '%s:%s' % (inst.key(), flag)
+                key_base = '%s:%s' % (inst.name, 'one-operand' if len(inst.args or []) == 1 else 'two-operand')
+                from ..lifter import get_size as _gs, SizeError as _SE
+
+                def wid(t):
+                    try:
+                        return _gs(t)
+                    except (_SE, AttributeError):
+                        return None
+                width = wid(inst.args[0]) if inst.args else None
+                problem = None
+                if not prods:
+                    problem = ('no-product', 'the condition %s does not contain the product: it reads the state before the multiplication' % show(cond)[:70])
+                else:
+                    # the high half must be visible: a hi-operator, or a product at least twice as wide as the operand
+                    hi_ops = [t for t in prods if t.op.endswith('_hi') or t.op == '*hi']
+                    wide = [t for t in prods if t.op == '*' and width and wid(t) and wid(t) >= 2 * width]
+                    if not hi_ops and not wide:
+                        problem = ('truncated-product', 'the condition %s is computed from the product truncated to the operand width: the lost high half cannot be recovered from it'
+                                   % show(cond)[:70])
+                    elif inst.name == 'imul' and hi_ops and not wide:
+                        # signed: the high half is compared with the sign extension of the low half, so the low half (or its sign) must occur too
+                        lo_seen = any(t.kind == 'Op' and (t.op.endswith('_lo') or t.op == '*lo' or t.op == '*') for t in walk_terms(cond))
+                        if not lo_seen:
+                            problem = ('signed-high-only', 'the condition %s tests the high half alone: for a signed product the flags tell whether the high half is the sign extension '
+                                       'of the low half (0xFFFFFFFF:0xFFFFFFFE = -2 fits)' % show(cond)[:70])
+                if problem:
+                    R7.violation(iid, 'mulflags:%s:%s:%s' % (key_base, flag, problem[0]), '%s (%s): %s of %s -- %s' % (inst.name, inst.form, flag.upper(), inst.name, problem[1]),
+                                 where(sem, inst.func.node), count=False, witness="mul cl with al = 0x80, cl = 0xff: CF from the old ah" if problem[0] == 'no-product' else
+                                 ("imul eax, ecx with 0x10000 * 0x10000: CF = 0" if problem[0] == 'truncated-product' else 'imul ecx with eax = -1, ecx = 2: CF = 1'))
+                else:
+                    R7.ok(iid, sample='%s %s: %s from %s' % (inst.name, inst.form, flag, show(cond)[:80]))
     report.analysed['effects_ref_mnemonics'] = len(eff)
 
     # ------------------------------------------------------------------ D4
@@ -454,6 +501,8 @@ def run(ctx, report):
 
 
 MUTANTS = [
+    ('mul8-flags-old-ah', 'miasmx/arch/ia32_sem.py', "        e.append(ExprAff(of, ExprCond(c[8:16],\n", "        e.append(ExprAff(of, ExprCond(eax[8:16],\n", 'C04.D7'),
+    ('imul-flags-high-only', 'miasmx/arch/ia32_sem.py', "    return ExprOp('-', c_hi, ExprCond(get_op_msb(c_lo),\n                                      ExprInt_from(c_lo, -1),\n                                      ExprInt_from(c_lo, 0)))", "    return c_hi", 'C04.D7'),
     ('setl-nf', 'miasmx/arch/ia32_sem.py', "def setl(info, a):\n    e = []\n    e.append(ExprAff(a, ExprCond(nf-of, ExprInt_from(a, 1), ExprInt_from(a, 0))))",
      "def setl(info, a):\n    e = []\n    e.append(ExprAff(a, ExprCond(nf, ExprInt_from(a, 1), ExprInt_from(a, 0))))", 'C04.D1'),
     ('sub-cf', 'miasmx/arch/ia32_sem.py', "return ExprAff(cf, get_op_msb((a ^ b) ^ c) ^ get_op_msb((a ^ c) & (a ^ b)))",
@@ -462,11 +511,11 @@ MUTANTS = [
      "    b = ExprInt_from(a, -1)\n    c = ExprOp('+', a, b)\n    e+=update_flag_arith(c)\n    e+=update_flag_af(c)\n    e.append(update_flag_add_cf(a, b, c))\n", 'C04.D3'),
     ('sub-swap-callsite', 'miasmx/arch/ia32_sem.py', "    c = ExprOp('-', a, b)\n    e+=update_flag_arith(c)\n    e+=update_flag_af(c)\n    e+=update_flag_sub(a, b, c)\n    e.append(ExprAff(a, c))",
      "    c = ExprOp('-', a, b)\n    e+=update_flag_arith(c)\n    e+=update_flag_af(c)\n    e+=update_flag_sub(b, a, c)\n    e.append(ExprAff(a, c))", 'C04.D2'),
-    ('jg-polarity', 'miasmx/arch/ia32_sem.py', "    e.append(ExprAff(eip, ExprCond(ExprOp('|', zf, nf-of), a, b)))\n    return e\n\ndef jl",
-     "    e.append(ExprAff(eip, ExprCond(ExprOp('|', zf, nf-of), b, a)))\n    return e\n\ndef jl", 'C04.D1'),
+    ('jg-polarity', 'miasmx/arch/ia32_sem.py', "    e.append(set_eip(ExprCond(ExprOp('|', zf, nf-of), a, b)))\n    return e\n\ndef jl",
+     "    e.append(set_eip(ExprCond(ExprOp('|', zf, nf-of), b, a)))\n    return e\n\ndef jl", 'C04.D1'),
     ('cmovb-zf', 'miasmx/arch/ia32_sem.py', "    e.append(ExprAff(a, ExprCond( cf , b, a)))", "    e.append(ExprAff(a, ExprCond( zf , b, a)))", 'C04.D1'),
-    ('loope-zf', 'miasmx/arch/ia32_sem.py', "                  ExprCond(zf, ExprInt_from(c, 0), ExprInt_from(c, 1))\n                  )\n    e.append(ExprAff(eip, ExprCond(cond, a, b)))\n    return e\n\n\n#XXX size",
-     "                  ExprCond(zf, ExprInt_from(c, 1), ExprInt_from(c, 0))\n                  )\n    e.append(ExprAff(eip, ExprCond(cond, a, b)))\n    return e\n\n\n#XXX size", 'C04.D1'),
+    ('loope-zf', 'miasmx/arch/ia32_sem.py', "                  ExprCond(zf, ExprInt_from(c, 0), ExprInt_from(c, 1))\n                  )\n    e.append(set_eip(ExprCond(cond, a, b)))\n    return e\n\n\n#XXX size",
+     "                  ExprCond(zf, ExprInt_from(c, 1), ExprInt_from(c, 0))\n                  )\n    e.append(set_eip(ExprCond(cond, a, b)))\n    return e\n\n\n#XXX size", 'C04.D1'),
     ('xor-nocf', 'miasmx/arch/ia32_sem.py', "    e.append(ExprAff(of, ExprInt32(0)))\n    e.append(ExprAff(cf, ExprInt32(0)))\n    return e\n\ndef update_flag_arith",
      "    e.append(ExprAff(of, ExprInt32(0)))\n    return e\n\ndef update_flag_arith", 'C04.D3'),
     ('add-znp-operand', 'miasmx/arch/ia32_sem.py', "def add(info, a, b):\n    e= []\n    c = ExprOp('+', a, b)\n    e+=update_flag_arith(c)", "def add(info, a, b):\n    e= []\n    c = ExprOp('+', a, b)\n    e+=update_flag_arith(a)", 'C04.D3'),
@@ -478,5 +527,5 @@ MUTANTS = [
     ('shr-mask-size', 'miasmx/arch/ia32_sem.py', "def shr(info, a, b):\n    e= []\n    shifter = ExprOp('&',b, ExprInt_from(b, 0x1f))",
      "def shr(info, a, b):\n    e= []\n    shifter = ExprOp('&',b, ExprInt_from(b, a.get_size()-1))", 'C04.D4'),
     ('sar-nomask', 'miasmx/arch/ia32_sem.py', "def sar(info, a, b):\n    e= []\n\n    shifter = ExprOp('&',b, ExprInt_from(b, 0x1f))", "def sar(info, a, b):\n    e= []\n\n    shifter = b", 'C04.D4'),
-    ('mov-zf', 'miasmx/arch/ia32_sem.py', "def mov(info, a, b):\n    return [ExprAff(a, b)]", "def mov(info, a, b):\n    return [ExprAff(a, b)] + update_flag_zf(b)", 'C04.D3'),
+    ('mov-zf', 'miasmx/arch/ia32_sem.py', "                         (ExprInt_from(b, 0), b.get_size(), a.get_size())])\n    return [ExprAff(a, b)]", "                         (ExprInt_from(b, 0), b.get_size(), a.get_size())])\n    return [ExprAff(a, b)] + update_flag_zf(b)", 'C04.D3'),
 ]
